@@ -29,15 +29,24 @@ Definition w_kvs_b : list kv := [(w_long, [40; 0; 0; 0; 0; 0; 0; 0]%N)].
 Lemma long_key_recorded_as_empty : keylen16 w_long = 0%N.
 Proof. vm_compute. reflexivity. Qed.
 
-Definition pinned_long_key_outcome : bres * res * res :=
-  match build_sized entry_hash bucket_of_go pinned 1 8 [] w_kvs_b with
-  | BOk f => (BOk [], lookup_sized entry_hash bucket_of_go f w_long, lookup_sized entry_hash bucket_of_go f [])
-  | r => (r, ReadErr, ReadErr)
-  end.
+Lemma w_long_length : N.of_nat (length w_long) = 65536%N.
+Proof. unfold w_long. now rewrite repeat_length, N2Nat.id. Qed.
+
+(* the file the pinned builder produces = the file of the empty key (theorem, any hash), here with the real hashes *)
+Definition w_file : list N :=
+  match build_sized entry_hash bucket_of_go repaired 1 8 [] [([], [40; 0; 0; 0; 0; 0; 0; 0]%N)] with
+  | BOk f => f | _ => [] end.
+
+Lemma pinned_long_key_file : build_sized entry_hash bucket_of_go pinned 1 8 [] w_kvs_b = BOk w_file.
+Proof.
+  unfold w_kvs_b. rewrite (sized_pinned_long_key_as_empty entry_hash bucket_of_go bucket_of_go_lt);
+    [vm_compute; reflexivity|vm_compute; reflexivity|vm_compute; reflexivity|exact w_long_length].
+Qed.
 
 Lemma pinned_long_key_lost :
-  pinned_long_key_outcome = (BOk [], NotFound, Found [40; 0; 0; 0; 0; 0; 0; 0]%N).
-Proof. vm_compute. reflexivity. Qed.
+  lookup_sized entry_hash bucket_of_go w_file w_long = NotFound /\
+  lookup_sized entry_hash bucket_of_go w_file [] = Found [40; 0; 0; 0; 0; 0; 0; 0]%N.
+Proof. split; vm_compute; reflexivity. Qed.
 
 Lemma repaired_long_key_error :
   build_sized entry_hash bucket_of_go repaired 1 8 [] w_kvs_b = BErr EKeyLen.
